@@ -89,6 +89,16 @@ class Lin(Aff):
                 continue
             return ("local", l, ())
 
+    def _field_ty(self, l, fname):
+        ty = re.sub(r"^(&(mut )?)+", "", flow.strip_lifetimes(self.b.local_ty(l)))
+        a = self.F.adts.get(re.sub(r"<.*$", "", ty)) if getattr(self, "F", None) is not None else None
+        if not a or a.get("kind") != "struct":
+            return None
+        for f in a["variants"][0]["fields"]:
+            if f["name"] == fname:
+                return f["ty"]
+        return None
+
     def len_sym(self, op, bb):
         root = self.container_root(op)
         if root is None:
@@ -106,6 +116,11 @@ class Lin(Aff):
             m = re.match(r"^(?:&(?:mut )?)*\[[^;\]]+; (\d+)\]$", flow.strip_lifetimes(self.b.local_ty(l)))
             if m:
                 return aff_const(int(m.group(1)))           # a fixed-size array: its length is in its type
+        if kind == "field" and len(path) == 1:
+            ft = self._field_ty(l, path[0])
+            m = re.match(r"^\[[^;\]]+; (\d+)\]$", ft or "")
+            if m:
+                return aff_const(int(m.group(1)))           # a fixed-size array field
         nm = self.b.local_name(l) or "_%d" % l
         ver = self.version(l, bb)
         return aff_sym("len(%s%s)#%s" % (nm, "".join("." + x for x in path), hash(ver) % 100000 if ver[1] else 0))
@@ -450,7 +465,35 @@ def sites_and_facts(F, body, extra_facts=None):
             facts.append((("after", bb), f, "min() upper bound"))
     for f in (extra_facts or []):
         facts.append(f)
+    facts.extend(_const_param_facts(F, b))
     return L, sites, facts, inn, out
+
+
+def _const_param_facts(F, b):
+    """A private function with one unsigned const generic parameter: the parameter is one of the values it is instantiated
+    with anywhere in the crate (the extractor's monomorphic call graph lists every instance)."""
+    if not b.j.get("generic") or str(b.j.get("vis", "")).startswith("pub") and b.j.get("vis") != "pub(self)":
+        return []
+    names = set()
+    for bb in range(b.n):
+        for m in re.finditer(r'"generic": true, "s": "(\w+)"', __import__("json").dumps([b.stmts(bb), b.term(bb)])):
+            names.add(m.group(1))
+    if len(names) != 1:
+        return []
+    vals = []
+    for i in F.j.get("instances", []):
+        if i.get("def") != b.name:
+            continue
+        m = re.search(r"::<([^<>]*)>$", i["name"])
+        ints = [x.strip() for x in (m.group(1).split(",") if m else []) if re.match(r"^\s*\d+\s*$", x)]
+        if len(ints) != 1:
+            return []
+        vals.append(int(ints[0]))
+    if not vals:
+        return []
+    sym = aff_sym("param:%s" % sorted(names)[0])
+    return [(("always",), aff_add(sym, aff_const(min(vals)), -1), "const parameter >= %d (all %d instance(s))" % (min(vals), len(vals))),
+            (("always",), aff_add(aff_const(max(vals)), sym, -1), "const parameter <= %d (all %d instance(s))" % (max(vals), len(vals)))]
 
 
 def _index_base(b, bb):
